@@ -31,6 +31,7 @@ type faultStore struct {
 	beforeMutate func()
 	afterMutate  func()
 	onRead       func(op string)
+	beforeBackup func()
 	mutates      int
 }
 
@@ -90,7 +91,12 @@ func (s *faultStore) GetLast(t storage.Table) (*storage.KVPair, error) {
 	return s.inner.GetLast(t)
 }
 func (s *faultStore) Close() error                          { return s.inner.Close() }
-func (s *faultStore) Backup(m string) error                 { return s.inner.Backup(m) }
+func (s *faultStore) Backup(m string) error {
+	if s.beforeBackup != nil {
+		s.beforeBackup()
+	}
+	return s.inner.Backup(m)
+}
 func (s *faultStore) GetBackupsInfo() []*storage.BackupInfo { return s.inner.GetBackupsInfo() }
 func (s *faultStore) DeleteBackup(id uint32) error          { return s.inner.DeleteBackup(id) }
 func (s *faultStore) RestoreFromBackup(id uint32, d, w string) error {
